@@ -1,28 +1,22 @@
 (** C13 — specification: the documented command language, written as an explicit
     grammar (no recogniser, no control flow), and the abstract meaning of the commands.
 
-    [LangG u c a s]: the byte string [s] is the command [c] with captured argument [a].
-    [u = true]  : letters are compared the way the regex crate's (?i) compares them
-                  (ASCII case plus the two Unicode simple folds of s and k);
-    [u = false] : the documented, plain ASCII case-insensitivity.
-    [Lang] is the language of the seven regexes as the code interprets them;
-    [LangDoc] the documented language.  They agree on every ASCII string. *)
+    [Lang c a s]: the byte string [s] is the command [c] with captured argument [a].
+    Letters are compared with plain ASCII case-insensitivity (the regexes carry (?i-u)). *)
 From Coq Require Import NArith String Ascii List Bool.
 From PV Require Import Cmd.Model.
 Import ListNotations.
 Open Scope N_scope.
 
-(* one literal character, case-insensitively: the byte sequence that may stand for it *)
-Inductive ci_char (u : bool) : N -> list N -> Prop :=
-| ci_same c : ci_char u c [c]
-| ci_to_lower c : 65 <= c <= 90 -> ci_char u c [c + 32]
-| ci_to_upper c : 97 <= c <= 122 -> ci_char u c [c - 32]
-| ci_long_s c : u = true -> c = 83 \/ c = 115 -> ci_char u c [197; 191]            (* U+017F *)
-| ci_kelvin c : u = true -> c = 75 \/ c = 107 -> ci_char u c [226; 132; 170].      (* U+212A *)
+(* one literal character, case-insensitively: the byte that may stand for it *)
+Inductive ci_char : N -> list N -> Prop :=
+| ci_same c : ci_char c [c]
+| ci_to_lower c : 65 <= c <= 90 -> ci_char c [c + 32]
+| ci_to_upper c : 97 <= c <= 122 -> ci_char c [c - 32].
 
-Inductive ci_str (u : bool) : list N -> list N -> Prop :=
-| ci_nil : ci_str u [] []
-| ci_cons c cs w ws : ci_char u c w -> ci_str u cs ws -> ci_str u (c :: cs) (w ++ ws).
+Inductive ci_str : list N -> list N -> Prop :=
+| ci_nil : ci_str [] []
+| ci_cons c cs w ws : ci_char c w -> ci_str cs ws -> ci_str (c :: cs) (w ++ ws).
 
 Definition spaces (l : list N) : Prop := Forall (fun b => b = 32) l.                 (*  *   *)
 Definition optq (l : list N) : Prop := l = [] \/ l = [39].                           (*  '?  *)
@@ -30,42 +24,39 @@ Definition digits1 (l : list N) : Prop := l <> [] /\ Forall (fun b => 48 <= b <=
 Definition Tail (l : list N) : Prop :=                                               (*  *;? *$ *)
   exists sp1 semi sp2, l = sp1 ++ semi ++ sp2 /\ spaces sp1 /\ (semi = [] \/ semi = [59]) /\ spaces sp2.
 
-Inductive LangG (u : bool) : cmd -> list N -> list N -> Prop :=
-(* (?i)^ *SET SHARDING KEY TO '?([0-9]+)'? *;? *$ *)
+Inductive Lang : cmd -> list N -> list N -> Prop :=
+(* (?i-u)^ *SET SHARDING KEY TO '?([0-9]+)'? *;? *$ *)
 | L_set_sharding_key sp kw q1 a q2 tl :
-    spaces sp -> ci_str u (B "SET SHARDING KEY TO ") kw -> optq q1 -> digits1 a -> optq q2 -> Tail tl ->
-    LangG u SetShardingKey a (sp ++ kw ++ q1 ++ a ++ q2 ++ tl)
-(* (?i)^ *SET SHARD TO '?([0-9]+|ANY)'? *;? *$ *)
+    spaces sp -> ci_str (B "SET SHARDING KEY TO ") kw -> optq q1 -> digits1 a -> optq q2 -> Tail tl ->
+    Lang SetShardingKey a (sp ++ kw ++ q1 ++ a ++ q2 ++ tl)
+(* (?i-u)^ *SET SHARD TO '?([0-9]+|ANY)'? *;? *$ *)
 | L_set_shard sp kw q1 a q2 tl :
-    spaces sp -> ci_str u (B "SET SHARD TO ") kw -> optq q1 ->
-    (digits1 a \/ ci_str u (B "ANY") a) -> optq q2 -> Tail tl ->
-    LangG u SetShard a (sp ++ kw ++ q1 ++ a ++ q2 ++ tl)
-(* (?i)^ *SHOW SHARD *;? *$ *)
+    spaces sp -> ci_str (B "SET SHARD TO ") kw -> optq q1 ->
+    (digits1 a \/ ci_str (B "ANY") a) -> optq q2 -> Tail tl ->
+    Lang SetShard a (sp ++ kw ++ q1 ++ a ++ q2 ++ tl)
+(* (?i-u)^ *SHOW SHARD *;? *$ *)
 | L_show_shard sp kw tl :
-    spaces sp -> ci_str u (B "SHOW SHARD") kw -> Tail tl ->
-    LangG u ShowShard [] (sp ++ kw ++ tl)
-(* (?i)^ *SET SERVER ROLE TO '(PRIMARY|REPLICA|ANY|AUTO|DEFAULT)' *;? *$ *)
+    spaces sp -> ci_str (B "SHOW SHARD") kw -> Tail tl ->
+    Lang ShowShard [] (sp ++ kw ++ tl)
+(* (?i-u)^ *SET SERVER ROLE TO '(PRIMARY|REPLICA|ANY|AUTO|DEFAULT)' *;? *$ *)
 | L_set_server_role sp kw a tl :
-    spaces sp -> ci_str u (B "SET SERVER ROLE TO ") kw ->
-    (ci_str u (B "PRIMARY") a \/ ci_str u (B "REPLICA") a \/ ci_str u (B "ANY") a \/
-     ci_str u (B "AUTO") a \/ ci_str u (B "DEFAULT") a) -> Tail tl ->
-    LangG u SetServerRole a (sp ++ kw ++ [39] ++ a ++ [39] ++ tl)
-(* (?i)^ *SHOW SERVER ROLE *;? *$ *)
+    spaces sp -> ci_str (B "SET SERVER ROLE TO ") kw ->
+    (ci_str (B "PRIMARY") a \/ ci_str (B "REPLICA") a \/ ci_str (B "ANY") a \/
+     ci_str (B "AUTO") a \/ ci_str (B "DEFAULT") a) -> Tail tl ->
+    Lang SetServerRole a (sp ++ kw ++ [39] ++ a ++ [39] ++ tl)
+(* (?i-u)^ *SHOW SERVER ROLE *;? *$ *)
 | L_show_server_role sp kw tl :
-    spaces sp -> ci_str u (B "SHOW SERVER ROLE") kw -> Tail tl ->
-    LangG u ShowServerRole [] (sp ++ kw ++ tl)
-(* (?i)^ *SET PRIMARY READS TO '?(on|off|default)'? *;? *$ *)
+    spaces sp -> ci_str (B "SHOW SERVER ROLE") kw -> Tail tl ->
+    Lang ShowServerRole [] (sp ++ kw ++ tl)
+(* (?i-u)^ *SET PRIMARY READS TO '?(on|off|default)'? *;? *$ *)
 | L_set_primary_reads sp kw q1 a q2 tl :
-    spaces sp -> ci_str u (B "SET PRIMARY READS TO ") kw -> optq q1 ->
-    (ci_str u (B "on") a \/ ci_str u (B "off") a \/ ci_str u (B "default") a) -> optq q2 -> Tail tl ->
-    LangG u SetPrimaryReads a (sp ++ kw ++ q1 ++ a ++ q2 ++ tl)
-(* (?i)^ *SHOW PRIMARY READS *;? *$ *)
+    spaces sp -> ci_str (B "SET PRIMARY READS TO ") kw -> optq q1 ->
+    (ci_str (B "on") a \/ ci_str (B "off") a \/ ci_str (B "default") a) -> optq q2 -> Tail tl ->
+    Lang SetPrimaryReads a (sp ++ kw ++ q1 ++ a ++ q2 ++ tl)
+(* (?i-u)^ *SHOW PRIMARY READS *;? *$ *)
 | L_show_primary_reads sp kw tl :
-    spaces sp -> ci_str u (B "SHOW PRIMARY READS") kw -> Tail tl ->
-    LangG u ShowPrimaryReads [] (sp ++ kw ++ tl).
-
-Definition Lang := LangG true.
-Definition LangDoc := LangG false.
+    spaces sp -> ci_str (B "SHOW PRIMARY READS") kw -> Tail tl ->
+    Lang ShowPrimaryReads [] (sp ++ kw ++ tl).
 
 Definition is_ascii (s : list N) : bool := forallb (fun b => b <? 128) s.
 
@@ -126,19 +117,5 @@ Definition render_preads (e : env) (x : astate) : list N :=
   | T_on => B "on" | T_off => B "off"
   | T_default => if e_preads e then B "on" else B "off"
   end.
-
-(* ------------------------------------------------------------------ known deviations *)
-(** D1 (open): SET PRIMARY READS TO <ON|Off|DEFAULT...>: the regex is case-insensitive but
-    query_router.rs:353-362 compares the captured text with "on"/"off"/"default" exactly, so
-    any other capitalisation is acknowledged with "SET PRIMARY READS" and changes nothing. *)
-Definition known_c13 (c : cmd) (a : list N) : bool :=
-  match c with
-  | SetPrimaryReads => negb (list_eqb a (map lower a))
-  | _ => false
-  end.
-
-(** D2 (open, benign): (?i) in the regex crate is Unicode-aware: U+017F for s and U+212A
-    for k are accepted inside the keywords.  Class: the query contains a non-ASCII byte. *)
-Definition known_fold (s : list N) : bool := negb (is_ascii s).
 
 Definition wf_env (e : env) : Prop := 1 <= e_shards e /\ e_shards e <= usize_max.
